@@ -215,6 +215,15 @@ func expectedGo(uri, doc string) (string, bool) {
 	return sb.String(), true
 }
 
+type docState struct {
+	uri, goURI string
+	ref        string
+	open       bool
+	version    int
+	lastGood   string
+	haveGood   bool
+}
+
 func simWorld(rc *kernel.RunCtx) {
 	// One release can make two goroutines runnable at once here: a handler that has just
 	// replied (AsyncHandler closes the next handler's gate *before* it writes its response)
@@ -267,12 +276,12 @@ func run(rc *kernel.RunCtx, k *kernel.Kernel) map[string]any {
 		}
 	})
 	defer simsync.SetAfterUnlock(nil)
-	const uri = "file:///w/a.templ"
-	const goURI = "file:///w/a_templ.go"
-	ref := ""
-	open := false
-	version := 0
-	lastGood, haveGood := "", false
+	// the editor has one or two documents d.open; d is the one the current action is about
+	docs := []*docState{{uri: "file:///w/a.templ", goURI: "file:///w/a_templ.go"}}
+	if t.Bool("two-documents") {
+		docs = append(docs, &docState{uri: "file:///w/sub/b.templ", goURI: "file:///w/sub/b_templ.go"})
+	}
+	d := docs[0]
 	var history []string
 	var fromServer []byte
 	diagnostics := 0
@@ -283,21 +292,21 @@ func run(rc *kernel.RunCtx, k *kernel.Kernel) map[string]any {
 		ioS.Feed(simnet.EncodeFrame(map[string]any{"jsonrpc": "2.0", "method": method, "params": params}))
 	}
 	noteGo := func() {
-		if g, ok := expectedGo(uri, ref); ok {
-			lastGood, haveGood = g, true
+		if g, ok := expectedGo(d.uri, d.ref); ok {
+			d.lastGood, d.haveGood = g, true
 		}
 	}
 	doOpen := func() {
-		ref = genDoc(t)
+		d.ref = genDoc(t)
 		if t.Bool("versions-restart-on-open") {
-			version = 0 // editors number the versions of a (re)opened document from 1 again
+			d.version = 0 // editors number the versions of a (re)opened document from 1 again
 		}
-		version++
-		open = true
-		haveGood = false
-		history = append(history, fmt.Sprintf("open %q", kernel.Short(ref, 60)))
-		k.Action("editor: didOpen " + fmt.Sprint(len(ref)))
-		send("textDocument/didOpen", map[string]any{"textDocument": map[string]any{"uri": uri, "languageId": "templ", "version": version, "text": ref}})
+		d.version++
+		d.open = true
+		d.haveGood = false
+		history = append(history, fmt.Sprintf("open %s %q", d.uri, kernel.Short(d.ref, 60)))
+		k.Action("editor: didOpen " + fmt.Sprint(len(d.ref)))
+		send("textDocument/didOpen", map[string]any{"textDocument": map[string]any{"uri": d.uri, "languageId": "templ", "version": d.version, "text": d.ref}})
 		noteGo()
 	}
 	doChange := func() {
@@ -308,8 +317,8 @@ func run(rc *kernel.RunCtx, k *kernel.Kernel) map[string]any {
 		var cs []any
 		var desc []string
 		for i := 0; i < n; i++ {
-			c := genChange(t, ref)
-			ref = applyRef(ref, c)
+			c := genChange(t, d.ref)
+			d.ref = applyRef(d.ref, c)
 			cs = append(cs, c.wire())
 			desc = append(desc, c.String())
 			k.Count("changes_applied", 1)
@@ -319,18 +328,18 @@ func run(rc *kernel.RunCtx, k *kernel.Kernel) map[string]any {
 				k.Count("probe_change_starting_at_origin", 1)
 			}
 		}
-		version++
-		history = append(history, "change "+strings.Join(desc, "; "))
+		d.version++
+		history = append(history, "change "+d.uri[len(d.uri)-7:]+" "+strings.Join(desc, "; "))
 		k.Action("editor: didChange " + strings.Join(desc, "; "))
-		send("textDocument/didChange", map[string]any{"textDocument": map[string]any{"uri": uri, "version": version}, "contentChanges": cs})
+		send("textDocument/didChange", map[string]any{"textDocument": map[string]any{"uri": d.uri, "version": d.version}, "contentChanges": cs})
 		noteGo()
 	}
 	doClose := func() {
-		open = false
-		haveGood = false
-		history = append(history, "close")
+		d.open = false
+		d.haveGood = false
+		history = append(history, "close "+d.uri)
 		k.Action("editor: didClose")
-		send("textDocument/didClose", map[string]any{"textDocument": map[string]any{"uri": uri}})
+		send("textDocument/didClose", map[string]any{"textDocument": map[string]any{"uri": d.uri}})
 	}
 	collect := func() {
 		b := ioS.Drain()
@@ -382,34 +391,43 @@ func run(rc *kernel.RunCtx, k *kernel.Kernel) map[string]any {
 		return len(ps) == 1 && ps[0].Name == "rd:S" && ioS.Avail() == 0
 	}
 	checks := 0
+	var checkDoc func(d *docState)
 	check := func() {
 		collect()
 		if rc.Failed() {
 			return
 		}
 		checks++
-		d, ok := srv.TemplSource.Get(uri)
-		if !open {
+		for _, d := range docs {
+			checkDoc(d)
+			if rc.Failed() {
+				return
+			}
+		}
+	}
+	checkDoc = func(d *docState) {
+		doc, ok := srv.TemplSource.Get(d.uri)
+		if !d.open {
 			if ok {
 				rc.Fail("C17/closed-document-still-cached", "document closed by the editor is still held by the server")
 			}
 			return
 		}
 		if !ok {
-			rc.Fail("C17/document-missing", "server has no copy of the open document; history: %v", history)
+			rc.Fail("C17/document-missing", "server has no copy of the d.open document; history: %v", history)
 			return
 		}
-		if got := d.String(); got != ref {
-			rc.Fail("C17/document-diverged", "server copy %q, editor %q\n history: %s", kernel.Short(got, 300), kernel.Short(ref, 300), strings.Join(history, "\n   "))
+		if got := doc.String(); got != d.ref {
+			rc.Fail("C17/document-diverged", "server copy %q, editor %q\n history: %s", kernel.Short(got, 300), kernel.Short(d.ref, 300), strings.Join(history, "\n   "))
 			return
 		}
 		k.Count("document_comparisons", 1)
-		if haveGood {
+		if d.haveGood {
 			stub.mu.Lock()
-			got, have := stub.texts[goURI]
+			got, have := stub.texts[d.goURI]
 			stub.mu.Unlock()
-			if !have || got != lastGood {
-				rc.Fail("C17/go-code-stale", "gopls holds Go text that is not the generation of the latest parseable document (have=%v, %d vs %d bytes)\n history: %s", have, len(got), len(lastGood), strings.Join(history, "\n   "))
+			if !have || got != d.lastGood {
+				rc.Fail("C17/go-code-stale", "gopls holds Go text that is not the generation of the latest parseable document (have=%v, %d vs %d bytes)\n history: %s", have, len(got), len(d.lastGood), strings.Join(history, "\n   "))
 				return
 			}
 			k.Count("go_text_comparisons", 1)
@@ -418,6 +436,9 @@ func run(rc *kernel.RunCtx, k *kernel.Kernel) map[string]any {
 
 	k.Quiesce()
 	doOpen()
+	if len(docs) > 1 {
+		k.Count("probe_two_documents", 1)
+	}
 	maxActions := t.Range(5, rc.Param("max_actions", 120), "max-actions")
 	nEdits := 0
 	maxEdits := t.Range(1, rc.Param("max_edits", 40), "max-edits")
@@ -459,8 +480,9 @@ func run(rc *kernel.RunCtx, k *kernel.Kernel) map[string]any {
 		if nEdits < maxEdits {
 			acts = append(acts, action{wSend, func() {
 				nEdits++
+				d = docs[t.Choose(len(docs), "which-document")]
 				switch {
-				case !open:
+				case !d.open:
 					doOpen()
 				case t.Chance(1, 25, "close"):
 					doClose()
@@ -521,7 +543,7 @@ func run(rc *kernel.RunCtx, k *kernel.Kernel) map[string]any {
 	k.Quiesce()
 	k.Count("quiescent_checks", int64(checks))
 	k.Count("diagnostics_published", int64(diagnostics))
-	return map[string]any{"history": history, "final_document": kernel.Short(ref, 200), "checks": checks, "steps": k.Steps}
+	return map[string]any{"history": history, "documents": len(docs), "final_document": kernel.Short(docs[0].ref, 200), "checks": checks, "steps": k.Steps}
 }
 
 func TestSim(t *testing.T) { kernel.Main(t, simWorld) }
